@@ -485,8 +485,13 @@ def c05(ctx):
                     continue
                 cases.append((ex, '\n'.join(seq) + ('\n' if seq else '')))
     n_exh = len(cases)
+    # user IDs are signer-chosen text too: gpg escapes bytes below 0x20 but passes everything else through, so a user ID may
+    # carry characters that are line separators to str.splitlines() though not to bytes.splitlines(), and stray bytes
+    uid_vocab = VOCAB + [G + 'GOODSIG 136880E72A7B1384 evil' + sep + G + tr for sep in ('\u2028', '\u2029', '\x85', '\x1c', '\x0c', '\x0b')
+                         for tr in ('TRUST_ULTIMATE 0 pgp', 'VALIDSIG ' + FP + ' 2026-09-30 1790797435 0 4 0 1 10 01 ' + FP)]
+    uid_vocab += [G + 'TRUST_UNDEFINED 0 pgp\u2028' + G + 'TRUST_FULLY 0 pgp', G + 'EXPKEYSIG 136880E72A7B1384 k\u2029' + G + 'GOODSIG 1 k']
     for i in range(4000 if quick else 60000):
-        seq = [r.choice(VOCAB) for _ in range(r.randint(4, 9))]
+        seq = [r.choice(VOCAB if i % 4 else uid_vocab) for _ in range(r.randint(4, 9))]
         cases.append((r.choice([0, 0, 0, 1, 2, -9]), r.choice(['\n', '\r\n']).join(seq) + '\n'))
     im = [impl_verify_file(env, ex, out) for ex, out in cases]
     model = run_model([['verify_file', ex, out] for ex, out in cases])
